@@ -1,5 +1,5 @@
 """C01 — shaping is total: no panic, abort or hang; output length bounded by max(64 n, 16384)."""
-import os, re, struct, unicodedata
+import json, os, re, struct, unicodedata
 import vlib, corpus, bufgen
 
 MODULE = "RbModel.Props.C01"
@@ -373,9 +373,11 @@ class Judge:
             ln, build, line, reply, stream = g["best"]
             head = f"{gid}: {g['what']} — {'; '.join(sorted(g['sites']))[:300]}" if g["what"] else g["sites"][0]
             rp = {"stage": "search", "stream": stream, "build": build, "request": line, "observed": reply[:500], "signature": gid}
-            gm = re.search(r"@(\S*/c01fonts/xaat/\S+?\.ttf)@", line)
+            gm = re.search(r"@(\S*/c01fonts/(?:xaat|ggr)/\S+?\.ttf)@", line)
             if gm and os.path.exists(gm.group(1)) and os.path.getsize(gm.group(1)) < 20000:
                 rp["font_hex"] = open(gm.group(1), "rb").read().hex()       # generated font: the replay is self-contained
+                if os.path.exists(gm.group(1)[:-4] + ".json"):
+                    rp["recipe"] = json.load(open(gm.group(1)[:-4] + ".json"))     # what the font holds (cmap: U+E000 + gid - 1)
             ctx.violation(f"shaping is not total — {head} [{g['cases']} cases, builds: {','.join(sorted(g['builds']))}]", rp)
         for name, st in self.stats.items():
             ctx.note_search(name, st["cases"], st["nonempty"], ok=st["ok"], rejected=st["reject"], max_ms=st["max_ms"],
@@ -414,6 +416,16 @@ RULES = {
                         "range bounds come from the same set and from the input clusters +-1 (global, start == end, start > end, end == "
                         "start + 1, overlapping) x 4 directions x 3 cluster levels; both builds; oracle: no panic / abort / hang, "
                         "len <= max(64n,16384)",
+    "gsub-gpos-random": "generated fonts that combine a random GSUB — profiles: chain (every stage draws its inputs from what the "
+                        "earlier stages produce: ligatures, ligatures of ligatures, multiple substitution / deletion / renaming of "
+                        "ligature glyphs and of multiplied glyphs, chained contexts calling earlier lookups), expansion, uniformly "
+                        "random (also deletion-heavy) — with a GDEF that is absent / agrees with the lookups / is drawn at random, and a "
+                        "random GPOS of every lookup type 1-8 whose coverages are drawn without looking at GDEF (marks in base "
+                        "coverages, bases and ligature outputs in mark coverages), partly aimed at glyphs and adjacent pairs the GSUB "
+                        "really produces; a third of the fonts with skewed tables (class count off by one, matrices / arrays shorter or "
+                        "longer than their coverage, ligatures with 0 / 1 / 15-17 components, mark class past the class count) x texts "
+                        "from the rule sequences and over the whole cmap x 4 directions x 3 cluster levels, the font's features on; "
+                        "both builds; oracle: no panic / abort / hang, len <= max(64n,16384)",
     "long": "all corpus fonts x long texts (1 / 64k / 300k x one letter, base + up to 70k marks, conjuncts of 127..2000 consonants, "
             "64k default ignorables, mixed runs); monitors: crash, abort, CPU time of the request (60 s release / 600 s checked; a case "
             "above the limit is re-run at half the length and counts as a hang unless t(n) <= 5 t(n/2)), len <= max(64n,16384)",
@@ -773,6 +785,145 @@ def gsub_random_lines(r, nfonts):
     return L
 
 # ---------------------------------------------------------------------------------------------------------
+# `gsub-gpos-random` (added after the seeded change C01g): a random GSUB whose lookups feed each other TOGETHER WITH a random GPOS
+# of every lookup type whose coverages are drawn without looking at GDEF — the positioning lookups then meet glyphs in states only
+# substitution chains leave behind (ligature ids and component numbers on glyphs that are not marks, multiplied ligatures,
+# ligatures of ligatures, everything deleted), and tables no font tool writes but every parser accepts
+
+GG_DIRS = ["l", "r", "t", "b"]
+
+
+def skew_gpos(r, gpos, stat):
+    """rewrites part of the subtables into shapes the OpenType text forbids and no parser rejects: class count off by one (either
+    way), anchor matrix / value / entry-exit / pair-set / mark arrays shorter or longer than their coverage, ligatures with no / one /
+    up to 17 components (component numbers have 4 bits), mark classes at or past the class count, rows without any anchor"""
+    def note(k): stat[k] = stat.get(k, 0) + 1
+    for lk in gpos["lookups"]:
+        for st in lk["subtables"]:
+            t = lk["type"]
+            if not isinstance(st, dict) or not r.chance(1, 2 if t == 5 else 3):
+                continue
+            if t in (4, 5, 6):
+                key = {4: "bases", 5: "ligs", 6: "mark2"}[t]
+                how = r.choice([0, 1, 2, 3, 4, 5, 6, 6, 6, 6, 7]) if t == 5 else r.below(8)
+                if how == 0: st["class_count"] += 1; note("class-count+1")
+                elif how == 1: st["class_count"] = max(0, st["class_count"] - 1); note("class-count-1")
+                elif how == 2 and st[key]: st[key] = st[key][:-1]; note("matrix-shorter-than-coverage")
+                elif how == 3: st[key] = st[key] + [st[key][0]] if st[key] else st[key]; note("matrix-longer-than-coverage")
+                elif how == 4 and st["marks"]: st["marks"] = st["marks"][:-1]; note("mark-array-shorter-than-coverage")
+                elif how == 5 and st["marks"]:
+                    i = r.below(len(st["marks"]))
+                    st["marks"][i] = (st["class_count"] + r.below(2), st["marks"][i][1]); note("mark-class-past-class-count")
+                elif how == 6 and t == 5 and st[key]:
+                    # the component count of every ligature (or of one) is redrawn: none at all, one, more than any ligature id
+                    # can number (component numbers have 4 bits)
+                    k = max(1, st["class_count"])
+                    one = r.below(len(st[key])) if r.chance(1, 3) else None
+                    for i in range(len(st[key])):
+                        if one is not None and i != one: continue
+                        nc = r.choice([0, 0, 1, 1, 4, 15, 16, 17])
+                        st[key][i] = [[(r.range(-200, 200), r.range(-200, 200)) for _ in range(k)] for _ in range(nc)]
+                        note(f"ligature-components:{nc}")
+                elif st[key]:
+                    i = r.below(len(st[key]))
+                    st[key][i] = [[None] * max(1, st["class_count"])] if t == 5 else [None] * max(1, st["class_count"])
+                    note("row-without-anchors")
+            elif t == 3 and st.get("entry_exit"):
+                st["entry_exit"] = st["entry_exit"][:-1]; note("entry-exit-shorter-than-coverage")
+            elif t == 1 and st.get("format") == 2 and st.get("values"):
+                st["values"] = st["values"][:-1]; note("values-shorter-than-coverage")
+            elif t == 2 and st.get("format") == 1 and st.get("pairsets"):
+                st["pairsets"] = st["pairsets"][:-1]; note("pairsets-shorter-than-coverage")
+
+
+def gsub_gpos_recipe(r, stat):
+    """one font: GSUB profile x GDEF mode x GPOS (all types 1-8, coverages independent of GDEF, partly aimed at the glyphs and
+    adjacent pairs the GSUB really produces) x optional skewing"""
+    import gsubgen, C10
+    prof = r.choice(["chain", "chain", "chain", "expansion", "random", "random-deleting"])
+    if prof == "chain":
+        rec = gsubgen.chain_recipe(r)
+    elif prof == "expansion":
+        rec = gsubgen.expansion_recipe(r)
+    else:
+        rec = gsubgen.rand_recipe(r, max_lookups=6)
+        if prof == "random-deleting":
+            for lk in rec["gsub"]["lookups"]:
+                if lk["type"] == 2:
+                    for st in lk["subtables"]:
+                        st["sequences"] = [([] if r.chance(1, 2) else sq) for sq in st["sequences"]]
+    n = rec["num_glyphs"]
+    gd = "none" if "gdef" not in rec else "present"
+    if prof != "chain":
+        # GDEF of the other profiles: as generated / dropped / replaced by classes drawn at random
+        k = r.below(4)
+        if k == 0 and "gdef" in rec:
+            del rec["gdef"]; gd = "none"
+            for lk in rec["gsub"]["lookups"]: lk.pop("mark_set", None)
+        elif k == 1:
+            ms = (rec.get("gdef") or {}).get("mark_sets")
+            rec["gdef"] = {"classes": {g: r.choice([1, 2, 3, 3]) for g in range(1, n) if r.chance(3, 4)}}
+            if ms: rec["gdef"]["mark_sets"] = ms
+            gd = "random"
+    if prof == "chain":
+        pool = sorted({g for w in rec["final_words"] for g in w} | set(rec["text_glyphs"]))
+        pairs = rec["final_pairs"]
+        gpos = C10.rand_gpos(r, n, pool=pool or None, pairs=pairs or None, types=[1, 2, 3, 4, 4, 5, 5, 6, 7, 8])
+    elif r.chance(1, 2):
+        pool = sorted(set(rec.get("text_glyphs") or range(1, n)))
+        gpos = C10.rand_gpos(r, n, pool=pool, pairs=[(r.choice(pool), r.choice(pool)) for _ in range(4)])
+    else:
+        gpos = C10.rand_gpos(r, n)
+    skewed = r.chance(1, 3)
+    if skewed:
+        skew_gpos(r, gpos, stat.setdefault("skewed_tables", {}))
+    rec["gpos"] = gpos
+    for key in (f"gsub-profile:{prof}", f"gdef:{gd if prof != 'chain' else ('none' if 'gdef' not in rec else 'present')}",
+                f"gpos-skewed:{int(skewed)}"):
+        stat.setdefault("fonts", {})[key] = stat.setdefault("fonts", {}).get(key, 0) + 1
+    for lk in gpos["lookups"]:
+        stat.setdefault("gpos_lookup_types", {})[str(lk["type"])] = stat.setdefault("gpos_lookup_types", {}).get(str(lk["type"]), 0) + 1
+    return rec
+
+
+def gsub_gpos_lines(r, nfonts, ntexts, stat):
+    import fontbuild, gsubgen
+    d = os.path.join(cache_dir(), "ggr")
+    os.makedirs(d, exist_ok=True)
+    L = []
+    built = 0
+    for k in range(nfonts):
+        rec = gsub_gpos_recipe(r, stat)
+        try:
+            data = fontbuild.build({x: v for x, v in rec.items() if x in ("num_glyphs", "cmap", "advances", "gdef", "gsub", "gpos")})
+        except Exception:
+            stat["unbuildable"] = stat.get("unbuildable", 0) + 1
+            continue
+        built += 1
+        p = os.path.join(d, f"ggr-{k}.ttf")
+        if not os.path.exists(p) or open(p, "rb").read() != data:
+            open(p, "wb").write(data)
+        json.dump({x: v for x, v in rec.items() if x not in ("advances", "seqs")}, open(p[:-4] + ".json", "w"), default=str)   # goes into the replay
+        n = rec["num_glyphs"]
+        tags = [f["tag"] for f in rec["gsub"]["features"]] + [f["tag"] for f in rec["gpos"]["features"]]
+        feats = ",".join(f"{tag_hex(t)}:{r.choice([1, 1, 1, 2])}:0:4294967295" for t in sorted(set(tags)))
+        for ti in range(ntexts):
+            ln = r.choice([1, 2, 2, 3, 4, 6, 9])
+            k2 = r.below(4)
+            if rec.get("seqs") and k2 < 3:
+                gl = gsubgen.rand_glyphs(r, rec, ln)                 # the sequences the rules wait for, strung together
+                if k2 == 2:
+                    gl = [g if r.chance(3, 4) else r.range(1, n - 1) for g in gl]
+            else:
+                gl = [r.range(1, n - 1) for _ in range(ln)]          # the whole cmap: produced glyphs can be typed directly
+            text = [0xE000 + g - 1 for g in gl]
+            cfg = f"{GG_DIRS[(k + ti) % 4]} - - {r.choice([0, 0, 3, 4])} {r.below(3)} {feats if r.chance(3, 4) else '-'} - -"
+            L.append(f"c01 {spec(p)} {cfg} {rle(text)} ser=1")
+    stat["fonts_built"] = built
+    return L
+
+
+# ---------------------------------------------------------------------------------------------------------
 # `extreme-clusters` (added after the seeded change C01f): input cluster values and feature ranges at the edges of u32
 
 U32M = 0xFFFFFFFF
@@ -1107,6 +1258,9 @@ def run(ctx):
     run_both(j, "sweep", sweep_lines(ctx.rng("sweep"), ctx.budget(256, 64), ctx.budget([0, 1, 14], [0, 1, 2, 3, 14, 15, 16])), timeout=900)
     run_sweep_syllabic(ctx, j, shim, ctx.rng("sweep-syllabic"), ctx.budget(4, 32), ctx.budget(200, 6000))
     run_both(j, "gsub-random", gsub_random_lines(ctx.rng("gsubrnd"), ctx.budget(500, 6000)), timeout=900)
+    gstat = {}
+    run_both(j, "gsub-gpos-random", gsub_gpos_lines(ctx.rng("gsubgpos"), ctx.budget(1500, 20000), ctx.budget(8, 10), gstat), timeout=900)
+    ctx.cov["gsub_gpos_random"] = gstat
     run_both(j, "glyph-metric", metric_lines(ctx.rng("metric"), shim, ctx.budget(2128, 2128)), timeout=900)
     xstat = {}
     run_both(j, "extreme-clusters", extreme_lines(shim, ctx.rng("extreme"), ctx.budget(1500, 20000), ctx.budget(80, 800), xstat), timeout=900)
@@ -1128,7 +1282,7 @@ def replay(ctx, rp):
             # generated fonts of sweep-syllabic live in a cache directory: rebuild them (they depend on the crate only)
             import syllabic
             for _ in syllabic.sweep_batches(vlib.build_harness(), vlib.Rng(1, "replay"), 0, 1, [], rle, {}): pass
-        m = re.search(r"@(\S*/c01fonts/xaat/\S+?\.ttf)@", rp["request"])
+        m = re.search(r"@(\S*/c01fonts/(?:xaat|ggr)/\S+?\.ttf)@", rp["request"])
         if m and "font_hex" in rp:
             os.makedirs(os.path.dirname(m.group(1)), exist_ok=True)
             open(m.group(1), "wb").write(bytes.fromhex(rp["font_hex"]))
